@@ -86,7 +86,14 @@ class Trace:
         cur = None
         last_recv = {}
         boot_aid = None
+        self.search_calls = []    # (ih, announce) in call order, for this node
+        n_start_cmds = 0
         for (t, kind, body) in log:
+            if kind == "SEARCH_CALL":
+                p = body.split()
+                if p[1] == node["name"]:
+                    self.search_calls.append((int(p[2], 16), p[3] == "1"))
+                continue
             if kind == "AIDS":
                 m = re.match(r"refresh=ActionID \{ action_id: (\d+) \} bootstrap=ActionID \{ action_id: (\d+) \}", body)
                 self.aids[0] = int(m.group(1))
@@ -102,6 +109,10 @@ class Trace:
                 if cur is not None and kind == "EV_SHUTDOWN":
                     continue
                 cur = {"t": t, "kind": kind, "body": body, "out": [], "lookup": None}
+                if kind == "EV_CMD" and body.strip() == "StartLookup":
+                    if n_start_cmds < len(self.search_calls):
+                        cur["call"] = self.search_calls[n_start_cmds]
+                    n_start_cmds += 1
                 if kind == "EV_MSG":
                     cur["hex"] = last_recv.get(body.strip())
                     cur["src"] = parse_sock(body.strip())
@@ -168,9 +179,9 @@ class Trace:
         elif k == "EV_CMD":
             name = e["body"].strip()
             if name == "StartLookup":
-                if e["lookup"] is None:
-                    raise Broken("StartLookup without LOOKUP_START")
-                ev = "RStartLookup %d %s" % (e["lookup"][1], "true" if e["lookup"][2] else "false")
+                if e.get("call") is None:
+                    raise Broken("StartLookup command without a SEARCH_CALL")
+                ev = "RStartLookup %d %s" % (e["call"][0], "true" if e["call"][1] else "false")
             elif name == "CheckBootstrap":
                 ev = "RCheckBootstrap"
             else:
